@@ -41,10 +41,15 @@ def gen_cases(tier, seed):
         if fam == "hostile":
             case["hkind"] = HOSTILE_CYCLE[(i // 2) % len(HOSTILE_CYCLE)]  # every sub-generator gets its share on every seed
         cases.append(case)
+    for k in range(hostile.zoo_size() * (1 if tier == "quick" else 6)):
+        # the operator zoo: one CPU-resident float32 instance of 47 further operators with every option set
+        cases.append({"family": "hostile", "nseed": int(seed * 1000003 + 800000 + k), "cfg": cfggen.rand_cfg(rng), "hkind": "zoo", "hpick": k, "cli": k % 4 == 0})
     return cases
 
 
 def make_net(case):
+    if case["family"] == "hostile" and case.get("hkind") == "zoo":
+        return hostile.fam_zoo(case["nseed"], case.get("hpick", 0))
     if case["family"] == "hostile":
         return hostile.fam_hostile(case["nseed"], case.get("hkind"))
     return netgen.make(case["family"], case["nseed"])
